@@ -1134,12 +1134,23 @@ def move_imports_to_toplevel(source: str) -> str:
                 if node.module in _get_package_names(candidate)
             ]
             if not module_import_linenos:
+                removals.remove(node)
                 continue
             safe_position_lineno = min(module_import_linenos)
 
         source_lines = source.splitlines()
         while safe_position_lineno > 1 and re.findall(r"^\s+", source_lines[safe_position_lineno]):
             safe_position_lineno -= 1
+
+        enclosing_statement_lineno = next(
+            statement.lineno
+            for statement in root.body
+            if statement is node or node in core.walk(statement, ast.ImportFrom)
+        )
+        if safe_position_lineno > enclosing_statement_lineno:
+            # Code between the place of the import and its new place would be without it
+            removals.remove(node)
+            continue
 
         new_node = ast.ImportFrom(
             module=node.module, names=node.names, level=node.level, lineno=safe_position_lineno
